@@ -56,6 +56,15 @@ Proof.
   split; [apply sub_length; lia|]. intros j Hj. apply sub_nth; lia.
 Qed.
 
+(* consecutive windows overlap in w - 1 symbols: window i without its first symbol is window i + 1
+   without its last *)
+Theorem windows_overlap (xs : list N) w i :
+  skipn 1 (sub xs i w) = firstn (w - 1) (sub xs (i + 1) w).
+Proof.
+  unfold sub. rewrite skipn_firstn_comm, skipn_skipn', firstn_firstn.
+  replace (Init.Nat.min (w - 1) w) with (w - 1) by lia. reflexivity.
+Qed.
+
 Example chunks_example :
   map (fun k => sub [0;1;2;3;0;1;2]%N (k * 3) 3) (seq 0 (7 / 3)) = [[0;1;2];[3;0;1]]%N.
 Proof. reflexivity. Qed.
